@@ -236,8 +236,11 @@ class Ctx:
         os.makedirs(os.path.join(VERIF, "replays"), exist_ok=True)
         os.makedirs(os.path.join(VERIF, "evidence"), exist_ok=True)
         lines = []
-        for k in self.known:
-            lines.append(f"KNOWN-FINDING: property={self.prop} {k['what']}")
+        seen_sigs = {k["signature"] for k in self.known}
+        for k in self.load_known().get("findings", []):
+            if k["property"] == self.prop:
+                tag = "reproduced in this run" if k["signature"] in seen_sigs else "not reproduced in this run"
+                lines.append(f"KNOWN-FINDING: property={self.prop} [{k['signature']}] {k.get('what', '')} ({tag})")
         rc = 0
         if self.violations:
             rc = 1
